@@ -270,6 +270,21 @@ def mergeProblem (P : AssetProblem) (lead : Nat → Nat) (lbar ubar : List Rat) 
     rows := P.rows.map (Row.rename (sigmaOf lead n))
     mapping := P.mapping.map fun m => { m with var := sigmaOf lead n m.var } }
 
+/-- all variables with a row in group `k` -/
+def grp (M : List MapRow) (labels : List (Nat × Nat × Nat)) (k : GroupKey) : List Nat :=
+  ((M.filter (inGroup labels k)).map (·.var)).eraseDups
+
+/-- the one group a mapping row belongs to (if its node and labels are not NaN) -/
+def keyOf (labels : List (Nat × Nat × Nat)) (m : MapRow) : GroupKey :=
+  { asset := m.asset, node := m.node, kind := m.kind, varName := m.varName, dur := durOf labels m, sub := subOf labels m }
+
+/-- executable form of the hypothesis of `C13.makePeriodic_is_merge`: any two groups that share a variable have
+    the same variables -/
+def partitionCheck (M : List MapRow) (labels : List (Nat × Nat × Nat)) : Bool :=
+  M.all fun m1 => M.all fun m2 =>
+    !((grp M labels (keyOf labels m1)).any fun v => (grp M labels (keyOf labels m2)).contains v) ||
+      (grp M labels (keyOf labels m1)).all fun w => (grp M labels (keyOf labels m2)).contains w
+
 /-- the leader map `makePeriodic` ends with -/
 def finalLead (P : AssetProblem) (labels : List (Nat × Nat × Nat)) (j : Nat) : Nat :=
   (mergeAll P labels).leadOf.getD j j
